@@ -12,13 +12,14 @@ from vlib.runner import Failure
 ID = "C17"
 LEVEL = "exploration"
 RULE = ("case = (server kind: threaded / thread-pool / one-shot / forking; TCP loopback or unix socket; history <= 15 steps of "
-        "connect / call / graceful close / abrupt close (RST) by up to 5 clients, an audit point, then server.close() at a "
+        "connect / call / graceful close / abrupt close (RST) by up to 5 clients, without authenticator / with one / with one that "
+        "returns a new socket object for the descriptor (as TLS wrapping does), an audit point, then server.close() at a "
         "generated position - or, for the in-process threaded and pool servers, close() forced to run to completion between "
         "the listener handing out a late client's connection and the accept loop seeing it (a harness-side listener wrapper "
         "owns that schedule) - and a second close()). oracle: after close() a new connection attempt is refused, every client "
         "that was still connected gets EOFError on its next request well inside the bound (its own request timeout firing "
         "instead is the failure), each of their service instances' disconnect hook has run exactly once, the second close() "
-        "raises nothing; at every audit point after clients have left, server.clients / fd_to_conn hold nothing for them and "
+        "raises nothing; at every audit point after clients have left, server.clients / fd_to_conn / the descriptors registered with the pool server's poll object (observed through a wrapper) hold nothing for them and "
         "the process's open descriptors equal baseline + listener + 2 per still-connected client; for the forking server also: n "
         "clients leave while child-exit notifications are held back (signal mask in the helper), the server is then notified once, "
         "and no exited child may remain in the process table; a one-shot server has "
@@ -33,7 +34,7 @@ def run_history(case):
     stats = {"connected_at_close": 0, "departures": 0, "abrupt": 0}
     gc.collect()
     baseline = servers.open_fds()
-    fx = servers.Fixture(case["server"], case["transport"], False)
+    fx = servers.Fixture(case["server"], case["transport"], case.get("auth", False) if case["server"] != "forking" else False)
     clients = {}
     inproc = case["server"] != "forking"
     try:
@@ -88,18 +89,27 @@ def run_history(case):
             srv = fx.server
             want_fds = len(baseline) + (0 if fx.closed or (case["server"] == "oneshot" and stats["departures"]) else 1) + 2 * len(clients)
 
+            def nclients():
+                # socket objects the server still tracks (an object that a wrapping authenticator left detached is no socket)
+                return sum(1 for s_ in list(srv.clients) if s_.fileno() != -1)
+
             def settled():
                 gc.collect()
-                tables = len(srv.clients) <= len(clients) and (not hasattr(srv, "fd_to_conn") or len(srv.fd_to_conn) <= len(clients))
+                tables = nclients() <= len(clients) and len(srv.clients) <= 2 * len(clients) and (not hasattr(srv, "fd_to_conn") or len(srv.fd_to_conn) <= len(clients))
+                if fx.pollspy is not None and not fx.closed and fx.pollspy.registered - set(srv.fd_to_conn):
+                    return False
                 return tables and len(servers.open_fds()) <= want_fds
             ok = servers.wait_until(settled)
             if not ok:
                 gc.collect()
                 fds = servers.open_fds()
-                if len(srv.clients) > len(clients):
+                if nclients() > len(clients) or len(srv.clients) > 2 * len(clients):
                     problems.append(("leftover", "server.clients still holds sockets of departed clients", [len(srv.clients), len(clients), tag]))
                 elif hasattr(srv, "fd_to_conn") and len(srv.fd_to_conn) > len(clients):
                     problems.append(("leftover", "fd_to_conn still holds departed connections", [len(srv.fd_to_conn), len(clients), tag]))
+                elif fx.pollspy is not None and not fx.closed and fx.pollspy.registered - set(srv.fd_to_conn):
+                    problems.append(("leftover", "descriptors of departed clients are still registered with the server's poll object",
+                                     [sorted(fx.pollspy.registered - set(srv.fd_to_conn)), tag]))
                 else:
                     problems.append(("leftover", "descriptors of departed clients still open", [len(fds) - len(baseline), want_fds - len(baseline), tag]))
             elif len([e for e in fx.events if e[0] == "disconnect"]) > len([e for e in fx.events if e[0] == "connect"]):
@@ -311,6 +321,8 @@ def check(case, rec):
                "abrupt-departures:%d" % min(stats["abrupt"], 2)]
     if stats.get("close_during_accept") and not stats.get("late_refused"):
         classes.append("close()-completes-between-listener-accept-and-accept-loop")
+    if case.get("auth"):
+        classes.append("authenticator:%s" % ("returns-a-new-socket-object" if case["auth"] == "detach" else "same-socket"))
     if stats.get("coalesced"):
         classes.append("children-exited-before-one-notification:%d" % stats["coalesced"])
     if stats.get("late_refused"):
@@ -329,6 +341,7 @@ def cases(kinds):
         lambda t: [["connect", 0], ["connect", 1], ["connect", 2]] + t[0] + [["leave", 0, t[1]], ["leave", 1, not t[1]], ["audit", 0]] + t[2])
     tail = st.sampled_from([[["close", 0]], [], [["audit", 0], ["close", 0]], [["close_during_accept", 0]]])
     hist = st.fixed_dictionaries({"server": st.sampled_from(kinds), "transport": st.sampled_from(["tcp", "tcp", "unix"]),
+                                  "auth": st.sampled_from([False, False, True, "detach"]),
                                   "steps": st.tuples(st.one_of(body, constructed), tail).map(lambda t: t[0] + t[1])})
     if kinds == ["forking"]:
         coalesced = st.fixed_dictionaries({"server": st.just("forking"), "transport": st.sampled_from(["tcp", "unix"]),
